@@ -2,7 +2,7 @@
 # tools/seed_retry.sh <ID> <A|B> <demo pkg dir> [pkgs...] — recreate the worktree from seeded/<ID>-<v>/ and re-run seed_try.
 ID=$1; V=$2
 v=$(echo $V | tr A-Z a-z)
-WT=/tmp/seed-$ID
+WT=${SEEDWT:-/tmp/seed-$ID}
 if [ ! -d $WT ]; then git -C /repo worktree add -q --detach $WT HEAD || exit 2; fi
 mkdir -p $WT/_seed/$V
 cp /verif/seeded/$ID-$v/patch.diff /verif/seeded/$ID-$v/demo_test.go $WT/_seed/$V/
